@@ -928,7 +928,9 @@ func (m *Nitro) StoreToDisk(dir string, snap *Snapshot, concurr int, itmCallback
 	defer func() {
 		for _, w := range writers {
 			if w != nil {
-				w.Close()
+				if cerr := w.Close(); cerr != nil && err == nil {
+					err = cerr
+				}
 			}
 		}
 	}()
@@ -953,7 +955,9 @@ func (m *Nitro) StoreToDisk(dir string, snap *Snapshot, concurr int, itmCallback
 		defer func() {
 			for _, w := range deltaWriters {
 				if w != nil {
-					w.Close()
+					if cerr := w.Close(); cerr != nil && err == nil {
+						err = cerr
+					}
 				}
 			}
 		}()
